@@ -121,6 +121,17 @@ Theorem C14_fit_exact_any_order :
 Proof. exact fit_exact_general. Qed.
 Print Assumptions C14_fit_exact_any_order.
 
+(* hankel_nonsingular: N pixels of positive weight with pairwise different
+   abscissae (and no negative weight anywhere) make the Hankel matrix of a
+   radius invertible -- the "full angular range and a few pixels" condition. *)
+Theorem C14_hankel_nonsingular :
+  forall (F : realFieldType) (K N : nat) (w x : 'I_K -> F),
+  (forall k, (0 <= w k)%MC) ->
+  forall f : 'I_N -> 'I_K, (forall i, (0 < w (f i))%MC) -> injective (x \o f) ->
+  hankelM N w x \in unitmx.
+Proof. exact hankel_nonsingular. Qed.
+Print Assumptions C14_hankel_nonsingular.
+
 Example C14_hypotheses_satisfiable :
   Forall (exact_px 1 2 0) [(1, 0, 1); (1, 1, 3)]%RR /\ hdet 2 [(1, 0, 1); (1, 1, 3)]%RR <> 0%RR.
 Proof. exact exact_example. Qed.
